@@ -36,6 +36,10 @@ def handle (op : String) (a : Json) : P Json := do
   | "cum" =>
     let ls ← getList asRat a "lens"
     pure <| Json.arr ((cumDist ls).map ratJ).toArray
+  | "euclid" =>
+    let c ← getList pt a "center"
+    let ls ← getList asRat a "lens"
+    pure (Json.bool (isEuclid c ls))
   | "cum_min" =>
     let l1 ← getList asRat a "lens_left"
     let l2 ← getList asRat a "lens_right"
